@@ -240,7 +240,28 @@ def rule_d(ctx, out):
         raise AnalysisError(f"only {n} constant folders with a discount found")
 
 
+def rule_e(ctx, out):
+    """The store vocabulary is {MSTORE, MSTORE8, SSTORE}: a predicate over a record's opcode that selects the word stores of both
+    memory and storage (accepts MSTORE and SSTORE) must also accept MSTORE8 — otherwise byte stores silently drop out of whatever
+    is computed from the selection (here: the stack-size bound)."""
+    from ..core.idioms import store_predicates
+    n = 0
+    for f, expr, acc in store_predicates(ctx, {GO, "verification.sfs_verify", "smt_encoding.json_with_dependencies"}):
+        n += 1
+        if {"MSTORE", "SSTORE"} <= acc and "MSTORE8" not in acc:
+            out.bad(f"store-predicate-misses-MSTORE8:{f.name}:{norm(expr)[:50]}", f"in {f.name} the predicate `{short(expr, 70)}` selects MSTORE and SSTORE "
+                    f"records but not MSTORE8", where(f, expr), {"accepts": sorted(acc)})
+        elif "MSTORE" in acc and "MSTORE8" not in acc and "mstore8" not in norm(f.node).lower():
+            out.bad(f"store-predicate-misses-MSTORE8:{f.name}:{norm(expr)[:50]}", f"in {f.name} the predicate `{short(expr, 70)}` selects MSTORE but not MSTORE8, "
+                    f"and the function handles byte stores nowhere else", where(f, expr), {"accepts": sorted(acc)})
+        else:
+            out.ok({"function": f.name, "predicate": short(expr, 60), "accepts": sorted(acc)})
+    if n < 8:
+        raise AnalysisError(f"only {n} store-selecting predicates found")
+
+
 RULES = [
+    ("C16.e", "store-selecting predicates cover MSTORE8", 8, rule_e),
     ("C16.d", "the folding discount is counted once per expression", 2, rule_d),
     ("C16.c", "the discount de-duplication level is the instruction's position", 3, rule_c),
     ("C16.a", "provenance of original_instrs", 4, rule_a),
